@@ -292,3 +292,588 @@ Theorem model_is_source_C01_Solve : forall A : Arith, @SrcEqSolve.model_is_sourc
 Proof. intros A. exact SrcEqSolve.model_is_source_Solve_lemma. Qed.
 Check model_is_source_C01_Solve : forall A : Arith, @SrcEqSolve.model_is_source_Solve A.
 Print Assumptions model_is_source_C01_Solve.
+(* ======================================================================================================
+   C01 (dense direct solvers), rounding half -- package round.  Append to Props/C01.v.
+   The TRIANGULAR half of the backward-error claim, in the STANDARD MODEL of floating-point arithmetic
+   (Base/RoundModel.v; the same Gallina [backsolve] / [solve_lu] / [solve_basic] of Model/Solve.v at ARm), for every
+   size n with n u < 1 (Higham, Accuracy and Stability of Numerical Algorithms, Theorem 8.5):
+     backsolve:             (U + dU) x^ = b ,  |dU| <= gam n |U| ,  U = upper triangle of the matrix handed to backsolve
+     forward substitution:  (L + dL) y^ = b ,  |dL| <= gam n |L| ,  L = unit lower triangle (the loop inside solve_lu)
+     solve_lu / solve_basic: what they return went through exactly these solves with the COMPUTED factors.
+   and (third block below) the FACTORISATION and the solver as a whole, Higham Theorems 9.3 and 9.4:
+     lu_decomp:  L^ U^ = P A + dA,  |dA| <= gam n |L^||U^|;     solve_lu:  (A + dA) x^ = b + db,
+     |dA| <= (3 gam n + gam n^2) P^T |L^||U^|,  |db| <= gam n |b|   (in IEEE arithmetic P b is exact; the pure standard
+     model charges its rounding to b), L^, U^, P the COMPUTED factors and permutation, pivots nonzero.
+   NOT COVERED (stated, not proved): the comparison of |L^||U^| with |A| -- that, and only that, is where the growth
+   factor of Gaussian elimination with partial pivoting enters (Higham sec. 9.3-9.4); runs of solve_basic in which a
+   pivot search meets an all-zero column (the known quirk of max_abs_in_column: its index starts at row 0); that IEEE
+   binary64 obeys the standard model absent underflow/overflow is re-proved for the two triangular solves (second
+   block), dot and multiply (Props/C15.v, Props/C03.v), not for the factorisation.
+   ====================================================================================================== *)
+From Coq Require Import Reals Lra Lia.
+From OV Require Import Base.RoundModel Proofs.Matrix Proofs.LUSolve Proofs.RoundDot Proofs.RoundMatvec Proofs.RoundBacksolve
+  Proofs.RoundSolve Proofs.RoundFlx Proofs.RoundExamples.
+
+Theorem backsolve_backward_error : forall (u : R), (0 <= u < 1)%R ->
+  forall (fadd fsub fmul fdiv : R -> R -> R),
+  (forall x y : R, exists d : R, (Rabs d <= u)%R /\ fsub x y = ((x - y) * (1 + d))%R) ->
+  (forall x y : R, exists d : R, (Rabs d <= u)%R /\ fmul x y = (x * y * (1 + d))%R) ->
+  (forall x y : R, y <> 0%R -> exists d : R, (Rabs d <= u)%R /\ fdiv x y = (x / y * (1 + d))%R) ->
+  forall (m : matrix (ARm fadd fsub fmul fdiv)) (b x : list R),
+  Proofs.Matrix.wf m -> rows m = cols m -> length b = rows m -> (INR (rows m) * u < 1)%R ->
+  (forall k, (k < rows m)%nat -> rentry fadd fsub fmul fdiv m k k <> 0%R) ->
+  backsolve m b = Ok x ->
+  length x = rows m /\
+  exists dU : nat -> nat -> R,
+    (forall i j, (i < rows m)%nat -> (j < rows m)%nat ->
+       (Rabs (dU i j) <= gam u (rows m) * Rabs (triu fadd fsub fmul fdiv m i j))%R) /\
+    forall i, (i < rows m)%nat ->
+      Rsum (rows m) (fun j => ((triu fadd fsub fmul fdiv m i j + dU i j) * nth j x 0)%R) = nth i b 0%R.
+Proof. intros u Hu fadd fsub fmul fdiv Hs Hm Hd m b x. exact (backsolve_backward_error_lemma u Hu fadd fsub fmul fdiv Hs Hm Hd m b x). Qed.
+Check backsolve_backward_error : forall (u : R), (0 <= u < 1)%R ->
+  forall (fadd fsub fmul fdiv : R -> R -> R),
+  (forall x y : R, exists d : R, (Rabs d <= u)%R /\ fsub x y = ((x - y) * (1 + d))%R) ->
+  (forall x y : R, exists d : R, (Rabs d <= u)%R /\ fmul x y = (x * y * (1 + d))%R) ->
+  (forall x y : R, y <> 0%R -> exists d : R, (Rabs d <= u)%R /\ fdiv x y = (x / y * (1 + d))%R) ->
+  forall (m : matrix (ARm fadd fsub fmul fdiv)) (b x : list R),
+  Proofs.Matrix.wf m -> rows m = cols m -> length b = rows m -> (INR (rows m) * u < 1)%R ->
+  (forall k, (k < rows m)%nat -> rentry fadd fsub fmul fdiv m k k <> 0%R) ->
+  backsolve m b = Ok x ->
+  length x = rows m /\
+  exists dU : nat -> nat -> R,
+    (forall i j, (i < rows m)%nat -> (j < rows m)%nat ->
+       (Rabs (dU i j) <= gam u (rows m) * Rabs (triu fadd fsub fmul fdiv m i j))%R) /\
+    forall i, (i < rows m)%nat ->
+      Rsum (rows m) (fun j => ((triu fadd fsub fmul fdiv m i j + dU i j) * nth j x 0)%R) = nth i b 0%R.
+Print Assumptions backsolve_backward_error.
+(* [[2,1],[0,3]] x = [1,1] in the arithmetic that rounds every operation to 53 bits (1/3 is not representable) *)
+Example backsolve_backward_error_nonvacuous :
+  (0 <= ux < 1)%R /\
+  (forall x y : R, exists d : R, (Rabs d <= ux)%R /\ xsub x y = ((x - y) * (1 + d))%R) /\
+  (forall x y : R, exists d : R, (Rabs d <= ux)%R /\ xmul x y = (x * y * (1 + d))%R) /\
+  (forall x y : R, y <> 0%R -> exists d : R, (Rabs d <= ux)%R /\ xdiv x y = (x / y * (1 + d))%R) /\
+  Proofs.Matrix.wf ex_m2 /\ rows ex_m2 = cols ex_m2 /\ length ex_b2 = rows ex_m2 /\ (INR (rows ex_m2) * ux < 1)%R /\
+  (forall k, (k < rows ex_m2)%nat -> rentry xadd xsub xmul xdiv ex_m2 k k <> 0%R) /\
+  (exists x, backsolve ex_m2 ex_b2 = Ok x) /\ xdiv 1%R 3%R <> (1 / 3)%R.
+Proof.
+  split; [exact ux_range|]. split; [exact xsub_ok|]. split; [exact xmul_ok|]. split; [exact xdiv_ok|].
+  split; [reflexivity|]. split; [reflexivity|]. split; [reflexivity|]. split; [exact ex_size2|].
+  split; [intros [|[|k]] Hk; cbn in Hk; try lia; cbn; lra|]. split; [eexists; reflexivity|exact xdiv_inexact].
+Qed.
+
+(* the unit-lower forward substitution inside solve_lu ([fwd_loop] of Proofs/LUSolve.v is that loop, verbatim) *)
+Theorem fwdsolve_backward_error : forall (u : R), (0 <= u < 1)%R ->
+  forall (fadd fsub fmul fdiv : R -> R -> R),
+  (forall x y : R, exists d : R, (Rabs d <= u)%R /\ fsub x y = ((x - y) * (1 + d))%R) ->
+  (forall x y : R, exists d : R, (Rabs d <= u)%R /\ fmul x y = (x * y * (1 + d))%R) ->
+  forall (m : matrix (ARm fadd fsub fmul fdiv)) (b y : list R),
+  Proofs.Matrix.wf m -> rows m = cols m -> length b = rows m -> (INR (rows m) * u < 1)%R ->
+  Proofs.LUSolve.fwd_loop (A := ARm fadd fsub fmul fdiv) m b = Ok y ->
+  length y = rows m /\
+  exists dL : nat -> nat -> R,
+    (forall i j, (i < rows m)%nat -> (j < rows m)%nat ->
+       (Rabs (dL i j) <= gam u (rows m) * Rabs (tril1 fadd fsub fmul fdiv m i j))%R) /\
+    forall i, (i < rows m)%nat ->
+      Rsum (rows m) (fun j => ((tril1 fadd fsub fmul fdiv m i j + dL i j) * nth j y 0)%R) = nth i b 0%R.
+Proof. intros u Hu fadd fsub fmul fdiv Hs Hm m b y. exact (fwdsolve_backward_error_lemma u Hu fadd fsub fmul fdiv Hs Hm m b y). Qed.
+Check fwdsolve_backward_error : forall (u : R), (0 <= u < 1)%R ->
+  forall (fadd fsub fmul fdiv : R -> R -> R),
+  (forall x y : R, exists d : R, (Rabs d <= u)%R /\ fsub x y = ((x - y) * (1 + d))%R) ->
+  (forall x y : R, exists d : R, (Rabs d <= u)%R /\ fmul x y = (x * y * (1 + d))%R) ->
+  forall (m : matrix (ARm fadd fsub fmul fdiv)) (b y : list R),
+  Proofs.Matrix.wf m -> rows m = cols m -> length b = rows m -> (INR (rows m) * u < 1)%R ->
+  Proofs.LUSolve.fwd_loop (A := ARm fadd fsub fmul fdiv) m b = Ok y ->
+  length y = rows m /\
+  exists dL : nat -> nat -> R,
+    (forall i j, (i < rows m)%nat -> (j < rows m)%nat ->
+       (Rabs (dL i j) <= gam u (rows m) * Rabs (tril1 fadd fsub fmul fdiv m i j))%R) /\
+    forall i, (i < rows m)%nat ->
+      Rsum (rows m) (fun j => ((tril1 fadd fsub fmul fdiv m i j + dL i j) * nth j y 0)%R) = nth i b 0%R.
+Print Assumptions fwdsolve_backward_error.
+Example fwdsolve_backward_error_nonvacuous :   (* unit lower triangle of [[1,0],[3,1]] *)
+  let m := @mkM AFlx [1%R; 0%R; 3%R; 1%R] 2 2 in
+  (0 <= ux < 1)%R /\ Proofs.Matrix.wf m /\ rows m = cols m /\ length ex_b2 = rows m /\ (INR (rows m) * ux < 1)%R /\
+  exists y, Proofs.LUSolve.fwd_loop (A := AFlx) m ex_b2 = Ok y.
+Proof.
+  cbn zeta. split; [exact ux_range|]. split; [reflexivity|]. split; [reflexivity|]. split; [reflexivity|].
+  split; [exact ex_size2|eexists; reflexivity].
+Qed.
+
+(* solve_lu: both triangular solves, with the computed factors *)
+Theorem solve_lu_triangular_backward_error : forall (u : R), (0 <= u < 1)%R ->
+  forall (fadd fsub fmul fdiv : R -> R -> R),
+  (forall x y : R, exists d : R, (Rabs d <= u)%R /\ fsub x y = ((x - y) * (1 + d))%R) ->
+  (forall x y : R, exists d : R, (Rabs d <= u)%R /\ fmul x y = (x * y * (1 + d))%R) ->
+  (forall x y : R, y <> 0%R -> exists d : R, (Rabs d <= u)%R /\ fdiv x y = (x / y * (1 + d))%R) ->
+  forall (m lu perm : matrix (ARm fadd fsub fmul fdiv)) (piv : nat) (b x : list R),
+  Proofs.Matrix.wf m -> (INR (rows m) * u < 1)%R ->
+  lu_decomp m = Ok (lu, piv, perm) ->
+  (forall k, (k < rows m)%nat -> rentry fadd fsub fmul fdiv lu k k <> 0%R) ->
+  solve_lu m b = Ok x ->
+  length x = rows m /\
+  exists (pb y : list R) (dL dU : nat -> nat -> R),
+    multiply perm b = Ok pb /\ length y = rows m /\
+    (forall i j, (i < rows m)%nat -> (j < rows m)%nat ->
+       (Rabs (dL i j) <= gam u (rows m) * Rabs (tril1 fadd fsub fmul fdiv lu i j))%R) /\
+    (forall i j, (i < rows m)%nat -> (j < rows m)%nat ->
+       (Rabs (dU i j) <= gam u (rows m) * Rabs (triu fadd fsub fmul fdiv lu i j))%R) /\
+    (forall i, (i < rows m)%nat ->
+       Rsum (rows m) (fun j => ((tril1 fadd fsub fmul fdiv lu i j + dL i j) * nth j y 0)%R) = nth i pb 0%R) /\
+    (forall i, (i < rows m)%nat ->
+       Rsum (rows m) (fun j => ((triu fadd fsub fmul fdiv lu i j + dU i j) * nth j x 0)%R) = nth i y 0%R).
+Proof. intros u Hu fadd fsub fmul fdiv Hs Hm Hd m lu perm piv b x. exact (solve_lu_triangular_backward_error_lemma u Hu fadd fsub fmul fdiv Hs Hm Hd m lu perm piv b x). Qed.
+Check solve_lu_triangular_backward_error : forall (u : R), (0 <= u < 1)%R ->
+  forall (fadd fsub fmul fdiv : R -> R -> R),
+  (forall x y : R, exists d : R, (Rabs d <= u)%R /\ fsub x y = ((x - y) * (1 + d))%R) ->
+  (forall x y : R, exists d : R, (Rabs d <= u)%R /\ fmul x y = (x * y * (1 + d))%R) ->
+  (forall x y : R, y <> 0%R -> exists d : R, (Rabs d <= u)%R /\ fdiv x y = (x / y * (1 + d))%R) ->
+  forall (m lu perm : matrix (ARm fadd fsub fmul fdiv)) (piv : nat) (b x : list R),
+  Proofs.Matrix.wf m -> (INR (rows m) * u < 1)%R ->
+  lu_decomp m = Ok (lu, piv, perm) ->
+  (forall k, (k < rows m)%nat -> rentry fadd fsub fmul fdiv lu k k <> 0%R) ->
+  solve_lu m b = Ok x ->
+  length x = rows m /\
+  exists (pb y : list R) (dL dU : nat -> nat -> R),
+    multiply perm b = Ok pb /\ length y = rows m /\
+    (forall i j, (i < rows m)%nat -> (j < rows m)%nat ->
+       (Rabs (dL i j) <= gam u (rows m) * Rabs (tril1 fadd fsub fmul fdiv lu i j))%R) /\
+    (forall i j, (i < rows m)%nat -> (j < rows m)%nat ->
+       (Rabs (dU i j) <= gam u (rows m) * Rabs (triu fadd fsub fmul fdiv lu i j))%R) /\
+    (forall i, (i < rows m)%nat ->
+       Rsum (rows m) (fun j => ((tril1 fadd fsub fmul fdiv lu i j + dL i j) * nth j y 0)%R) = nth i pb 0%R) /\
+    (forall i, (i < rows m)%nat ->
+       Rsum (rows m) (fun j => ((triu fadd fsub fmul fdiv lu i j + dU i j) * nth j x 0)%R) = nth i y 0%R).
+Print Assumptions solve_lu_triangular_backward_error.
+(* lu_decomp of [[2,1],[0,3]] in the rounding arithmetic returns the factors ex_lu2 (nonzero diagonal), and solve_lu answers *)
+Example solve_lu_triangular_backward_error_nonvacuous :
+  (0 <= ux < 1)%R /\ Proofs.Matrix.wf ex_m2 /\ (INR (rows ex_m2) * ux < 1)%R /\
+  lu_decomp ex_m2 = Ok (ex_lu2, 0%nat, ex_id2) /\
+  (forall k, (k < rows ex_m2)%nat -> rentry xadd xsub xmul xdiv ex_lu2 k k <> 0%R) /\
+  exists x, solve_lu ex_m2 ex_b2 = Ok x.
+Proof.
+  split; [exact ux_range|]. split; [reflexivity|]. split; [exact ex_size2|]. split; [exact ex_lu_decomp|].
+  split; [exact ex_lu2_diag|exact ex_solve_lu].
+Qed.
+
+(* solve_basic: the back substitution, with the computed echelon form *)
+Theorem solve_basic_triangular_backward_error : forall (u : R), (0 <= u < 1)%R ->
+  forall (fadd fsub fmul fdiv : R -> R -> R),
+  (forall x y : R, exists d : R, (Rabs d <= u)%R /\ fsub x y = ((x - y) * (1 + d))%R) ->
+  (forall x y : R, exists d : R, (Rabs d <= u)%R /\ fmul x y = (x * y * (1 + d))%R) ->
+  (forall x y : R, y <> 0%R -> exists d : R, (Rabs d <= u)%R /\ fdiv x y = (x / y * (1 + d))%R) ->
+  forall (m m' : matrix (ARm fadd fsub fmul fdiv)) (b b' x : list R),
+  Proofs.Matrix.wf m -> (INR (rows m) * u < 1)%R ->
+  gauss_with_pivot m b = Ok (m', b') ->
+  (forall k, (k < rows m)%nat -> rentry fadd fsub fmul fdiv m' k k <> 0%R) ->
+  solve_basic m b = Ok x ->
+  length x = rows m /\
+  exists dU : nat -> nat -> R,
+    (forall i j, (i < rows m)%nat -> (j < rows m)%nat ->
+       (Rabs (dU i j) <= gam u (rows m) * Rabs (triu fadd fsub fmul fdiv m' i j))%R) /\
+    (forall i, (i < rows m)%nat ->
+       Rsum (rows m) (fun j => ((triu fadd fsub fmul fdiv m' i j + dU i j) * nth j x 0)%R) = nth i b' 0%R).
+Proof. intros u Hu fadd fsub fmul fdiv Hs Hm Hd m m' b b' x. exact (solve_basic_triangular_backward_error_lemma u Hu fadd fsub fmul fdiv Hs Hm Hd m m' b b' x). Qed.
+Check solve_basic_triangular_backward_error : forall (u : R), (0 <= u < 1)%R ->
+  forall (fadd fsub fmul fdiv : R -> R -> R),
+  (forall x y : R, exists d : R, (Rabs d <= u)%R /\ fsub x y = ((x - y) * (1 + d))%R) ->
+  (forall x y : R, exists d : R, (Rabs d <= u)%R /\ fmul x y = (x * y * (1 + d))%R) ->
+  (forall x y : R, y <> 0%R -> exists d : R, (Rabs d <= u)%R /\ fdiv x y = (x / y * (1 + d))%R) ->
+  forall (m m' : matrix (ARm fadd fsub fmul fdiv)) (b b' x : list R),
+  Proofs.Matrix.wf m -> (INR (rows m) * u < 1)%R ->
+  gauss_with_pivot m b = Ok (m', b') ->
+  (forall k, (k < rows m)%nat -> rentry fadd fsub fmul fdiv m' k k <> 0%R) ->
+  solve_basic m b = Ok x ->
+  length x = rows m /\
+  exists dU : nat -> nat -> R,
+    (forall i j, (i < rows m)%nat -> (j < rows m)%nat ->
+       (Rabs (dU i j) <= gam u (rows m) * Rabs (triu fadd fsub fmul fdiv m' i j))%R) /\
+    (forall i, (i < rows m)%nat ->
+       Rsum (rows m) (fun j => ((triu fadd fsub fmul fdiv m' i j + dU i j) * nth j x 0)%R) = nth i b' 0%R).
+Print Assumptions solve_basic_triangular_backward_error.
+Example solve_basic_triangular_backward_error_nonvacuous :
+  (0 <= ux < 1)%R /\ Proofs.Matrix.wf ex_m2 /\ (INR (rows ex_m2) * ux < 1)%R /\
+  gauss_with_pivot ex_m2 ex_b2 = Ok (ex_g2, ex_gb2) /\
+  (forall k, (k < rows ex_m2)%nat -> rentry xadd xsub xmul xdiv ex_g2 k k <> 0%R) /\
+  exists x, solve_basic ex_m2 ex_b2 = Ok x.
+Proof.
+  split; [exact ux_range|]. split; [reflexivity|]. split; [exact ex_size2|]. split; [exact ex_gauss|].
+  split; [exact ex_g2_diag|exact ex_solve_basic].
+Qed.
+
+(* ---- the same two solves at the PRIMITIVE-FLOAT instance (IEEE binary64, u = 2^-53), through Flocq ----
+   No hypothesis about rounding remains.  The side conditions are about computable values: the answer is finite,
+   the diagonal is nonzero, no product m_kj * x_j and no quotient racc/m_kk falls into the underflow range
+   ([racc m b x k n] = ((b_k - m_{k,k+1} x_{k+1}) - ...) - m_{k,n-1} x_{n-1}, the accumulated value of row k as the
+   code forms it: Proofs/RoundTrace.v proves  x_k = racc / m_kk  for backsolve over ANY arithmetic).
+   Unproved remainder: subnormal products/quotients, overflow, and the factorisation (as above). *)
+From Coq Require Import Floats.
+From OV Require Import Inst.FloatInst Proofs.ComplexRound Proofs.RoundDotFloat Proofs.RoundTrace Proofs.RoundTriFloat.
+
+Theorem backsolve_backward_error_float : forall (m : matrix AF) (b x : list PrimFloat.float),
+  Proofs.Matrix.wf m -> rows m = cols m -> length b = rows m -> (INR (rows m) * u64 < 1)%R ->
+  backsolve (A := AF) m b = Ok x ->
+  (forall k, (k < rows m)%nat -> ffinite (nth k x 0%float) /\ fentry m k k <> 0%R) ->
+  (forall k j, (k < j)%nat -> (j < rows m)%nat -> no_underflow (fentry m k j * FR (nth j x 0%float))%R) ->
+  (forall k, (k < rows m)%nat -> no_underflow (FR (racc (A := AF) m b x k (rows m)) / fentry m k k)%R) ->
+  length x = rows m /\
+  exists dU : nat -> nat -> R,
+    (forall i j, (i < rows m)%nat -> (j < rows m)%nat ->
+       (Rabs (dU i j) <= g64 (rows m) * Rabs (triu Fadd Fsub Fmul Fdiv (mFR m) i j))%R) /\
+    forall i, (i < rows m)%nat ->
+      Rsum (rows m) (fun j => ((triu Fadd Fsub Fmul Fdiv (mFR m) i j + dU i j) * FR (nth j x 0%float))%R)
+      = FR (nth i b 0%float).
+Proof. exact backsolve_backward_error_float_lemma. Qed.
+Check backsolve_backward_error_float : forall (m : matrix AF) (b x : list PrimFloat.float),
+  Proofs.Matrix.wf m -> rows m = cols m -> length b = rows m -> (INR (rows m) * u64 < 1)%R ->
+  backsolve (A := AF) m b = Ok x ->
+  (forall k, (k < rows m)%nat -> ffinite (nth k x 0%float) /\ fentry m k k <> 0%R) ->
+  (forall k j, (k < j)%nat -> (j < rows m)%nat -> no_underflow (fentry m k j * FR (nth j x 0%float))%R) ->
+  (forall k, (k < rows m)%nat -> no_underflow (FR (racc (A := AF) m b x k (rows m)) / fentry m k k)%R) ->
+  length x = rows m /\
+  exists dU : nat -> nat -> R,
+    (forall i j, (i < rows m)%nat -> (j < rows m)%nat ->
+       (Rabs (dU i j) <= g64 (rows m) * Rabs (triu Fadd Fsub Fmul Fdiv (mFR m) i j))%R) /\
+    forall i, (i < rows m)%nat ->
+      Rsum (rows m) (fun j => ((triu Fadd Fsub Fmul Fdiv (mFR m) i j + dU i j) * FR (nth j x 0%float))%R)
+      = FR (nth i b 0%float).
+Print Assumptions backsolve_backward_error_float.
+(* [[2,1],[0,3]] x = [1,1] in binary64: x_1 = fl(1/3) and x_0 = fl(fl(1 - fl(1/3))/2) are inexact *)
+Example backsolve_backward_error_float_nonvacuous :
+  Proofs.Matrix.wf exf_m /\ rows exf_m = cols exf_m /\ length exf_b = rows exf_m /\ (INR (rows exf_m) * u64 < 1)%R /\
+  backsolve (A := AF) exf_m exf_b = Ok exf_x /\
+  (forall k, (k < rows exf_m)%nat -> ffinite (nth k exf_x 0%float) /\ fentry exf_m k k <> 0%R) /\
+  (forall k j, (k < j)%nat -> (j < rows exf_m)%nat -> no_underflow (fentry exf_m k j * FR (nth j exf_x 0%float))%R) /\
+  (forall k, (k < rows exf_m)%nat ->
+     no_underflow (FR (racc (A := AF) exf_m exf_b exf_x k (rows exf_m)) / fentry exf_m k k)%R).
+Proof.
+  split; [reflexivity|]. split; [reflexivity|]. split; [reflexivity|].
+  split; [cbn [exf_m rows INR]; pose proof u64_small; lra|]. split; [exact exf_backsolve|exact exf_conditions].
+Qed.
+
+Theorem fwdsolve_backward_error_float : forall (m : matrix AF) (b y : list PrimFloat.float),
+  Proofs.Matrix.wf m -> rows m = cols m -> length b = rows m -> (INR (rows m) * u64 < 1)%R ->
+  Proofs.LUSolve.fwd_loop (A := AF) m b = Ok y ->
+  (forall i, (i < rows m)%nat -> ffinite (nth i y 0%float)) ->
+  (forall i j, (j < i)%nat -> (i < rows m)%nat -> no_underflow (fentry m i j * FR (nth j y 0%float))%R) ->
+  length y = rows m /\
+  exists dL : nat -> nat -> R,
+    (forall i j, (i < rows m)%nat -> (j < rows m)%nat ->
+       (Rabs (dL i j) <= g64 (rows m) * Rabs (tril1 Fadd Fsub Fmul Fdiv (mFR m) i j))%R) /\
+    forall i, (i < rows m)%nat ->
+      Rsum (rows m) (fun j => ((tril1 Fadd Fsub Fmul Fdiv (mFR m) i j + dL i j) * FR (nth j y 0%float))%R)
+      = FR (nth i b 0%float).
+Proof. exact fwdsolve_backward_error_float_lemma. Qed.
+Check fwdsolve_backward_error_float : forall (m : matrix AF) (b y : list PrimFloat.float),
+  Proofs.Matrix.wf m -> rows m = cols m -> length b = rows m -> (INR (rows m) * u64 < 1)%R ->
+  Proofs.LUSolve.fwd_loop (A := AF) m b = Ok y ->
+  (forall i, (i < rows m)%nat -> ffinite (nth i y 0%float)) ->
+  (forall i j, (j < i)%nat -> (i < rows m)%nat -> no_underflow (fentry m i j * FR (nth j y 0%float))%R) ->
+  length y = rows m /\
+  exists dL : nat -> nat -> R,
+    (forall i j, (i < rows m)%nat -> (j < rows m)%nat ->
+       (Rabs (dL i j) <= g64 (rows m) * Rabs (tril1 Fadd Fsub Fmul Fdiv (mFR m) i j))%R) /\
+    forall i, (i < rows m)%nat ->
+      Rsum (rows m) (fun j => ((tril1 Fadd Fsub Fmul Fdiv (mFR m) i j + dL i j) * FR (nth j y 0%float))%R)
+      = FR (nth i b 0%float).
+Print Assumptions fwdsolve_backward_error_float.
+(* unit lower triangle of [[1,0],[0x1.999999999999ap-4,1]] (the double nearest 0.1): y_1 = fl(1 - 0.1) is inexact *)
+Example fwdsolve_backward_error_float_nonvacuous :
+  let m := @mkM AF [1%float; 0%float; 0x1.999999999999ap-4%float; 1%float] 2 2 in
+  let b := [1%float; 1%float] in
+  Proofs.Matrix.wf m /\ rows m = cols m /\ length b = rows m /\ (INR (rows m) * u64 < 1)%R /\
+  exists y, Proofs.LUSolve.fwd_loop (A := AF) m b = Ok y /\
+    (forall i, (i < rows m)%nat -> ffinite (nth i y 0%float)) /\
+    (forall i j, (j < i)%nat -> (i < rows m)%nat -> no_underflow (fentry m i j * FR (nth j y 0%float))%R).
+Proof.
+  cbn zeta. split; [reflexivity|]. split; [reflexivity|]. split; [reflexivity|].
+  split; [cbn [rows INR]; pose proof u64_small; lra|].
+  exists [1%float; (1 - 0x1.999999999999ap-4 * 1)%float]. split; [vm_compute; reflexivity|]. split.
+  - intros [|[|i]] Hi; cbn in Hi; try lia; apply ffinite_SF; reflexivity.
+  - intros [|[|i]] [|j] Hji Hi; cbn in Hi; try lia.
+    unfold fentry; cbn [nth buf cols Nat.mul Nat.add].
+    assert (E1 : FR 1%float = 1%R) by fr_eval.
+    assert (Ea : (/ 16 <= FR 0x1.999999999999ap-4%float)%R) by fr_eval.
+    rewrite E1. apply no_underflow_ge_small. rewrite Rabs_pos_eq; lra.
+Qed.
+
+(* ---- the factorisation and the solver as a whole (Higham Theorems 9.3, 9.4), standard model ---- *)
+From OV Require Import Proofs.RoundLUFun Proofs.RoundLUTrace Proofs.RoundLUError Proofs.RoundSolveLU.
+
+Theorem lu_factor_backward_error : forall (u : R), (0 <= u < 1)%R ->
+  forall (fadd fsub fmul fdiv : R -> R -> R),
+  (forall x y : R, exists d : R, (Rabs d <= u)%R /\ fsub x y = ((x - y) * (1 + d))%R) ->
+  (forall x y : R, exists d : R, (Rabs d <= u)%R /\ fmul x y = (x * y * (1 + d))%R) ->
+  (forall x y : R, y <> 0%R -> exists d : R, (Rabs d <= u)%R /\ fdiv x y = (x / y * (1 + d))%R) ->
+  forall (m lu perm : matrix (ARm fadd fsub fmul fdiv)) (piv : nat),
+  Proofs.Matrix.wf m -> (INR (rows m) * u < 1)%R -> lu_decomp m = Ok (lu, piv, perm) ->
+  (forall k, (k < rows m)%nat -> rentry fadd fsub fmul fdiv lu k k <> 0%R) ->
+  Proofs.LUPrim.shape lu (rows m) (rows m) /\ Proofs.LUPrim.shape perm (rows m) (rows m) /\
+  exists tau : nat -> nat, PermOK fadd fsub fmul fdiv (rows m) tau perm /\
+    forall i c, (i < rows m)%nat -> (c < rows m)%nat ->
+      exists th : nat -> R, (forall k, (k < rows m)%nat -> (Rabs (th k) <= gam u (rows m))%R) /\
+        rentry fadd fsub fmul fdiv m (tau i) c
+        = Rsum (rows m) (fun k => (tril1 fadd fsub fmul fdiv lu i k * triu fadd fsub fmul fdiv lu k c * (1 + th k))%R).
+Proof. intros u Hu fadd fsub fmul fdiv Hs Hm Hd m lu perm piv. exact (lu_factor_backward_error_lemma u Hu fadd fsub fmul fdiv Hs Hm Hd m lu perm piv). Qed.
+Check lu_factor_backward_error : forall (u : R), (0 <= u < 1)%R ->
+  forall (fadd fsub fmul fdiv : R -> R -> R),
+  (forall x y : R, exists d : R, (Rabs d <= u)%R /\ fsub x y = ((x - y) * (1 + d))%R) ->
+  (forall x y : R, exists d : R, (Rabs d <= u)%R /\ fmul x y = (x * y * (1 + d))%R) ->
+  (forall x y : R, y <> 0%R -> exists d : R, (Rabs d <= u)%R /\ fdiv x y = (x / y * (1 + d))%R) ->
+  forall (m lu perm : matrix (ARm fadd fsub fmul fdiv)) (piv : nat),
+  Proofs.Matrix.wf m -> (INR (rows m) * u < 1)%R -> lu_decomp m = Ok (lu, piv, perm) ->
+  (forall k, (k < rows m)%nat -> rentry fadd fsub fmul fdiv lu k k <> 0%R) ->
+  Proofs.LUPrim.shape lu (rows m) (rows m) /\ Proofs.LUPrim.shape perm (rows m) (rows m) /\
+  exists tau : nat -> nat, PermOK fadd fsub fmul fdiv (rows m) tau perm /\
+    forall i c, (i < rows m)%nat -> (c < rows m)%nat ->
+      exists th : nat -> R, (forall k, (k < rows m)%nat -> (Rabs (th k) <= gam u (rows m))%R) /\
+        rentry fadd fsub fmul fdiv m (tau i) c
+        = Rsum (rows m) (fun k => (tril1 fadd fsub fmul fdiv lu i k * triu fadd fsub fmul fdiv lu k c * (1 + th k))%R).
+Print Assumptions lu_factor_backward_error.
+Example lu_factor_backward_error_nonvacuous :   (* the factors of [[2,1],[0,3]] in the rounding arithmetic have a nonzero diagonal *)
+  (0 <= ux < 1)%R /\ Proofs.Matrix.wf ex_m2 /\ (INR (rows ex_m2) * ux < 1)%R /\
+  lu_decomp ex_m2 = Ok (ex_lu2, 0%nat, ex_id2) /\
+  (forall k, (k < rows ex_m2)%nat -> rentry xadd xsub xmul xdiv ex_lu2 k k <> 0%R).
+Proof.
+  split; [exact ux_range|]. split; [reflexivity|]. split; [exact ex_size2|]. split; [exact ex_lu_decomp|exact ex_lu2_diag].
+Qed.
+
+Theorem solve_lu_backward_error : forall (u : R), (0 <= u < 1)%R ->
+  forall (fadd fsub fmul fdiv : R -> R -> R),
+  (forall x y : R, exists d : R, (Rabs d <= u)%R /\ fadd x y = ((x + y) * (1 + d))%R) ->
+  (forall x y : R, exists d : R, (Rabs d <= u)%R /\ fsub x y = ((x - y) * (1 + d))%R) ->
+  (forall x y : R, exists d : R, (Rabs d <= u)%R /\ fmul x y = (x * y * (1 + d))%R) ->
+  (forall x y : R, y <> 0%R -> exists d : R, (Rabs d <= u)%R /\ fdiv x y = (x / y * (1 + d))%R) ->
+  (forall a b : R, fadd 0%R (fmul a b) = fmul a b) ->
+  forall (m lu perm : matrix (ARm fadd fsub fmul fdiv)) (piv : nat) (b x : list R),
+  Proofs.Matrix.wf m -> (INR (rows m) * u < 1)%R ->
+  lu_decomp m = Ok (lu, piv, perm) ->
+  (forall k, (k < rows m)%nat -> rentry fadd fsub fmul fdiv lu k k <> 0%R) ->
+  solve_lu m b = Ok x ->
+  length x = rows m /\
+  exists tau : nat -> nat,
+    (forall r, (r < rows m)%nat -> (tau r < rows m)%nat) /\
+    (forall r r', (r < rows m)%nat -> (r' < rows m)%nat -> tau r = tau r' -> r = r') /\
+    exists (dA : nat -> nat -> R) (db : nat -> R),
+      (forall i c, (i < rows m)%nat -> (c < rows m)%nat ->
+         (Rabs (dA i c) <= (3 * gam u (rows m) + gam u (rows m) * gam u (rows m))
+                           * Rsum (rows m) (fun k => Rabs (tril1 fadd fsub fmul fdiv lu i k)
+                                                     * Rabs (triu fadd fsub fmul fdiv lu k c)))%R) /\
+      (forall i, (i < rows m)%nat -> (Rabs (db i) <= gam u (rows m) * Rabs (nth (tau i) b 0))%R) /\
+      (forall i, (i < rows m)%nat ->
+         Rsum (rows m) (fun c => ((rentry fadd fsub fmul fdiv m (tau i) c + dA i c) * nth c x 0)%R)
+         = (nth (tau i) b 0 + db i)%R).
+Proof. intros u Hu fadd fsub fmul fdiv Ha Hs Hm Hd H0 m lu perm piv b x. exact (solve_lu_backward_error_lemma u Hu fadd fsub fmul fdiv Ha Hs Hm Hd H0 m lu perm piv b x). Qed.
+Check solve_lu_backward_error : forall (u : R), (0 <= u < 1)%R ->
+  forall (fadd fsub fmul fdiv : R -> R -> R),
+  (forall x y : R, exists d : R, (Rabs d <= u)%R /\ fadd x y = ((x + y) * (1 + d))%R) ->
+  (forall x y : R, exists d : R, (Rabs d <= u)%R /\ fsub x y = ((x - y) * (1 + d))%R) ->
+  (forall x y : R, exists d : R, (Rabs d <= u)%R /\ fmul x y = (x * y * (1 + d))%R) ->
+  (forall x y : R, y <> 0%R -> exists d : R, (Rabs d <= u)%R /\ fdiv x y = (x / y * (1 + d))%R) ->
+  (forall a b : R, fadd 0%R (fmul a b) = fmul a b) ->
+  forall (m lu perm : matrix (ARm fadd fsub fmul fdiv)) (piv : nat) (b x : list R),
+  Proofs.Matrix.wf m -> (INR (rows m) * u < 1)%R ->
+  lu_decomp m = Ok (lu, piv, perm) ->
+  (forall k, (k < rows m)%nat -> rentry fadd fsub fmul fdiv lu k k <> 0%R) ->
+  solve_lu m b = Ok x ->
+  length x = rows m /\
+  exists tau : nat -> nat,
+    (forall r, (r < rows m)%nat -> (tau r < rows m)%nat) /\
+    (forall r r', (r < rows m)%nat -> (r' < rows m)%nat -> tau r = tau r' -> r = r') /\
+    exists (dA : nat -> nat -> R) (db : nat -> R),
+      (forall i c, (i < rows m)%nat -> (c < rows m)%nat ->
+         (Rabs (dA i c) <= (3 * gam u (rows m) + gam u (rows m) * gam u (rows m))
+                           * Rsum (rows m) (fun k => Rabs (tril1 fadd fsub fmul fdiv lu i k)
+                                                     * Rabs (triu fadd fsub fmul fdiv lu k c)))%R) /\
+      (forall i, (i < rows m)%nat -> (Rabs (db i) <= gam u (rows m) * Rabs (nth (tau i) b 0))%R) /\
+      (forall i, (i < rows m)%nat ->
+         Rsum (rows m) (fun c => ((rentry fadd fsub fmul fdiv m (tau i) c + dA i c) * nth c x 0)%R)
+         = (nth (tau i) b 0 + db i)%R).
+Print Assumptions solve_lu_backward_error.
+Example solve_lu_backward_error_nonvacuous :   (* every operation of the example arithmetic rounds; solve_lu answers on [[2,1],[0,3]] x = [1,1] *)
+  (0 <= ux < 1)%R /\
+  (forall x y : R, exists d : R, (Rabs d <= ux)%R /\ xadd x y = ((x + y) * (1 + d))%R) /\
+  (forall x y : R, exists d : R, (Rabs d <= ux)%R /\ xsub x y = ((x - y) * (1 + d))%R) /\
+  (forall x y : R, exists d : R, (Rabs d <= ux)%R /\ xmul x y = (x * y * (1 + d))%R) /\
+  (forall x y : R, y <> 0%R -> exists d : R, (Rabs d <= ux)%R /\ xdiv x y = (x / y * (1 + d))%R) /\
+  (forall a b : R, xadd 0%R (xmul a b) = xmul a b) /\
+  Proofs.Matrix.wf ex_m2 /\ (INR (rows ex_m2) * ux < 1)%R /\
+  lu_decomp ex_m2 = Ok (ex_lu2, 0%nat, ex_id2) /\
+  (forall k, (k < rows ex_m2)%nat -> rentry xadd xsub xmul xdiv ex_lu2 k k <> 0%R) /\
+  exists x, solve_lu ex_m2 ex_b2 = Ok x.
+Proof.
+  split; [exact ux_range|]. split; [exact xadd_ok|]. split; [exact xsub_ok|]. split; [exact xmul_ok|].
+  split; [exact xdiv_ok|]. split; [exact xadd_0_mul|]. split; [reflexivity|]. split; [exact ex_size2|].
+  split; [exact ex_lu_decomp|]. split; [exact ex_lu2_diag|exact ex_solve_lu].
+Qed.
+
+(* the same with Higham's constant gam (3n)  (3 gam n + gam n^2 <= gam (3n), Lemma 3.3), for 3 n u < 1 *)
+Theorem solve_lu_backward_error_gam3n : forall (u : R), (0 <= u < 1)%R ->
+  forall (fadd fsub fmul fdiv : R -> R -> R),
+  (forall x y : R, exists d : R, (Rabs d <= u)%R /\ fadd x y = ((x + y) * (1 + d))%R) ->
+  (forall x y : R, exists d : R, (Rabs d <= u)%R /\ fsub x y = ((x - y) * (1 + d))%R) ->
+  (forall x y : R, exists d : R, (Rabs d <= u)%R /\ fmul x y = (x * y * (1 + d))%R) ->
+  (forall x y : R, y <> 0%R -> exists d : R, (Rabs d <= u)%R /\ fdiv x y = (x / y * (1 + d))%R) ->
+  (forall a b : R, fadd 0%R (fmul a b) = fmul a b) ->
+  forall (m lu perm : matrix (ARm fadd fsub fmul fdiv)) (piv : nat) (b x : list R),
+  Proofs.Matrix.wf m -> (INR (3 * rows m) * u < 1)%R ->
+  lu_decomp m = Ok (lu, piv, perm) ->
+  (forall k, (k < rows m)%nat -> rentry fadd fsub fmul fdiv lu k k <> 0%R) ->
+  solve_lu m b = Ok x ->
+  length x = rows m /\
+  exists tau : nat -> nat,
+    (forall r, (r < rows m)%nat -> (tau r < rows m)%nat) /\
+    (forall r r', (r < rows m)%nat -> (r' < rows m)%nat -> tau r = tau r' -> r = r') /\
+    exists (dA : nat -> nat -> R) (db : nat -> R),
+      (forall i c, (i < rows m)%nat -> (c < rows m)%nat ->
+         (Rabs (dA i c) <= gam u (3 * rows m)
+                           * Rsum (rows m) (fun k => Rabs (tril1 fadd fsub fmul fdiv lu i k)
+                                                     * Rabs (triu fadd fsub fmul fdiv lu k c)))%R) /\
+      (forall i, (i < rows m)%nat -> (Rabs (db i) <= gam u (rows m) * Rabs (nth (tau i) b 0))%R) /\
+      (forall i, (i < rows m)%nat ->
+         Rsum (rows m) (fun c => ((rentry fadd fsub fmul fdiv m (tau i) c + dA i c) * nth c x 0)%R)
+         = (nth (tau i) b 0 + db i)%R).
+Proof. intros u Hu fadd fsub fmul fdiv Ha Hs Hm Hd H0 m lu perm piv b x. exact (solve_lu_backward_error_gam3n_lemma u Hu fadd fsub fmul fdiv Ha Hs Hm Hd H0 m lu perm piv b x). Qed.
+Check solve_lu_backward_error_gam3n : forall (u : R), (0 <= u < 1)%R ->
+  forall (fadd fsub fmul fdiv : R -> R -> R),
+  (forall x y : R, exists d : R, (Rabs d <= u)%R /\ fadd x y = ((x + y) * (1 + d))%R) ->
+  (forall x y : R, exists d : R, (Rabs d <= u)%R /\ fsub x y = ((x - y) * (1 + d))%R) ->
+  (forall x y : R, exists d : R, (Rabs d <= u)%R /\ fmul x y = (x * y * (1 + d))%R) ->
+  (forall x y : R, y <> 0%R -> exists d : R, (Rabs d <= u)%R /\ fdiv x y = (x / y * (1 + d))%R) ->
+  (forall a b : R, fadd 0%R (fmul a b) = fmul a b) ->
+  forall (m lu perm : matrix (ARm fadd fsub fmul fdiv)) (piv : nat) (b x : list R),
+  Proofs.Matrix.wf m -> (INR (3 * rows m) * u < 1)%R ->
+  lu_decomp m = Ok (lu, piv, perm) ->
+  (forall k, (k < rows m)%nat -> rentry fadd fsub fmul fdiv lu k k <> 0%R) ->
+  solve_lu m b = Ok x ->
+  length x = rows m /\
+  exists tau : nat -> nat,
+    (forall r, (r < rows m)%nat -> (tau r < rows m)%nat) /\
+    (forall r r', (r < rows m)%nat -> (r' < rows m)%nat -> tau r = tau r' -> r = r') /\
+    exists (dA : nat -> nat -> R) (db : nat -> R),
+      (forall i c, (i < rows m)%nat -> (c < rows m)%nat ->
+         (Rabs (dA i c) <= gam u (3 * rows m)
+                           * Rsum (rows m) (fun k => Rabs (tril1 fadd fsub fmul fdiv lu i k)
+                                                     * Rabs (triu fadd fsub fmul fdiv lu k c)))%R) /\
+      (forall i, (i < rows m)%nat -> (Rabs (db i) <= gam u (rows m) * Rabs (nth (tau i) b 0))%R) /\
+      (forall i, (i < rows m)%nat ->
+         Rsum (rows m) (fun c => ((rentry fadd fsub fmul fdiv m (tau i) c + dA i c) * nth c x 0)%R)
+         = (nth (tau i) b 0 + db i)%R).
+Print Assumptions solve_lu_backward_error_gam3n.
+Example solve_lu_backward_error_gam3n_nonvacuous :   (* the instance of solve_lu_backward_error_nonvacuous; 6 u < 1 *)
+  (0 <= ux < 1)%R /\ Proofs.Matrix.wf ex_m2 /\ (INR (3 * rows ex_m2) * ux < 1)%R /\
+  lu_decomp ex_m2 = Ok (ex_lu2, 0%nat, ex_id2) /\
+  (forall k, (k < rows ex_m2)%nat -> rentry xadd xsub xmul xdiv ex_lu2 k k <> 0%R) /\
+  exists x, solve_lu ex_m2 ex_b2 = Ok x.
+Proof.
+  split; [exact ux_range|]. split; [reflexivity|]. split; [cbn; pose proof ux_small; lra|].
+  split; [exact ex_lu_decomp|]. split; [exact ex_lu2_diag|exact ex_solve_lu].
+Qed.
+
+(* ---- solve_basic as a whole (Higham Theorem 9.4 for elimination on the augmented system), standard model ----
+   (A + dA) x^ = b EXACTLY in b; L^ = the multipliers the elimination used (not stored by the code, hence existential;
+   |l_ik| <= 1 + u by partial pivoting), U^ = the computed echelon form; g = gam (n+1).  The first alternative of the conclusion is the run in which a pivot
+   search met an all-zero column ([BadRun]: a prefix of the run and the zero column are exhibited). *)
+From OV Require Import Proofs.RoundGaussTrace Proofs.RoundSolveBasic Proofs.RoundExamples3.
+
+Theorem solve_basic_backward_error : forall (u : R), (0 <= u < 1)%R ->
+  forall (fadd fsub fmul fdiv : R -> R -> R),
+  (forall x y : R, exists d : R, (Rabs d <= u)%R /\ fsub x y = ((x - y) * (1 + d))%R) ->
+  (forall x y : R, exists d : R, (Rabs d <= u)%R /\ fmul x y = (x * y * (1 + d))%R) ->
+  (forall x y : R, y <> 0%R -> exists d : R, (Rabs d <= u)%R /\ fdiv x y = (x / y * (1 + d))%R) ->
+  forall (m m' : matrix (ARm fadd fsub fmul fdiv)) (b b' x : list R),
+  Proofs.Matrix.wf m -> (INR (S (rows m)) * u < 1)%R ->
+  gauss_with_pivot m b = Ok (m', b') ->
+  (forall k, (k < rows m)%nat -> rentry fadd fsub fmul fdiv m' k k <> 0%R) ->
+  solve_basic m b = Ok x ->
+  length x = rows m /\
+  (BadRun fadd fsub fmul fdiv m b (rows m) (rows m - 1) \/
+   exists (tau : nat -> nat) (L : nat -> nat -> R),
+     (forall r, (r < rows m)%nat -> (tau r < rows m)%nat) /\
+     (forall r r', (r < rows m)%nat -> (r' < rows m)%nat -> tau r = tau r' -> r = r') /\
+     (forall i, L i i = 1%R) /\ (forall i k, (i < k)%nat -> L i k = 0%R) /\
+     (forall i k, (k < i)%nat -> (i < rows m)%nat -> (Rabs (L i k) <= 1 + u)%R) /\
+     exists dA : nat -> nat -> R,
+       (forall i c, (i < rows m)%nat -> (c < rows m)%nat ->
+          (Rabs (dA i c) <= (3 * gam u (S (rows m)) + gam u (S (rows m)) * gam u (S (rows m)))
+                            * Rsum (rows m) (fun k => Rabs (L i k) * Rabs (triu fadd fsub fmul fdiv m' k c)))%R) /\
+       (forall i, (i < rows m)%nat ->
+          Rsum (rows m) (fun c => ((rentry fadd fsub fmul fdiv m (tau i) c + dA i c) * nth c x 0)%R)
+          = nth (tau i) b 0%R)).
+Proof. intros u Hu fadd fsub fmul fdiv Hs Hm Hd m m' b b' x. exact (solve_basic_backward_error_lemma u Hu fadd fsub fmul fdiv Hs Hm Hd m m' b b' x). Qed.
+Check solve_basic_backward_error : forall (u : R), (0 <= u < 1)%R ->
+  forall (fadd fsub fmul fdiv : R -> R -> R),
+  (forall x y : R, exists d : R, (Rabs d <= u)%R /\ fsub x y = ((x - y) * (1 + d))%R) ->
+  (forall x y : R, exists d : R, (Rabs d <= u)%R /\ fmul x y = (x * y * (1 + d))%R) ->
+  (forall x y : R, y <> 0%R -> exists d : R, (Rabs d <= u)%R /\ fdiv x y = (x / y * (1 + d))%R) ->
+  forall (m m' : matrix (ARm fadd fsub fmul fdiv)) (b b' x : list R),
+  Proofs.Matrix.wf m -> (INR (S (rows m)) * u < 1)%R ->
+  gauss_with_pivot m b = Ok (m', b') ->
+  (forall k, (k < rows m)%nat -> rentry fadd fsub fmul fdiv m' k k <> 0%R) ->
+  solve_basic m b = Ok x ->
+  length x = rows m /\
+  (BadRun fadd fsub fmul fdiv m b (rows m) (rows m - 1) \/
+   exists (tau : nat -> nat) (L : nat -> nat -> R),
+     (forall r, (r < rows m)%nat -> (tau r < rows m)%nat) /\
+     (forall r r', (r < rows m)%nat -> (r' < rows m)%nat -> tau r = tau r' -> r = r') /\
+     (forall i, L i i = 1%R) /\ (forall i k, (i < k)%nat -> L i k = 0%R) /\
+     (forall i k, (k < i)%nat -> (i < rows m)%nat -> (Rabs (L i k) <= 1 + u)%R) /\
+     exists dA : nat -> nat -> R,
+       (forall i c, (i < rows m)%nat -> (c < rows m)%nat ->
+          (Rabs (dA i c) <= (3 * gam u (S (rows m)) + gam u (S (rows m)) * gam u (S (rows m)))
+                            * Rsum (rows m) (fun k => Rabs (L i k) * Rabs (triu fadd fsub fmul fdiv m' k c)))%R) /\
+       (forall i, (i < rows m)%nat ->
+          Rsum (rows m) (fun c => ((rentry fadd fsub fmul fdiv m (tau i) c + dA i c) * nth c x 0)%R)
+          = nth (tau i) b 0%R)).
+Print Assumptions solve_basic_backward_error.
+(* [[2,1],[0,3]] x = [1,1] in the arithmetic that rounds every operation: the run is not the excluded one *)
+Example solve_basic_backward_error_nonvacuous :
+  (0 <= ux < 1)%R /\ Proofs.Matrix.wf ex_m2 /\ (INR (S (rows ex_m2)) * ux < 1)%R /\
+  gauss_with_pivot ex_m2 ex_b2 = Ok (ex_g2, ex_gb2) /\
+  (forall k, (k < rows ex_m2)%nat -> rentry xadd xsub xmul xdiv ex_g2 k k <> 0%R) /\
+  (exists x, solve_basic ex_m2 ex_b2 = Ok x) /\
+  ~ BadRun xadd xsub xmul xdiv ex_m2 ex_b2 (rows ex_m2) (rows ex_m2 - 1).
+Proof.
+  split; [exact ux_range|]. split; [reflexivity|]. split; [exact ex_size3|]. split; [exact ex_gauss|].
+  split; [exact ex_g2_diag|]. split; [exact ex_solve_basic|exact ex_no_badrun].
+Qed.
+
+(* ---- partial pivoting keeps the computed multipliers small: |l_ik| <= 1 + u, hence (|L^||U^|)_ic <= (1+u) Sum_k |u_kc| ----
+   (needs the standard-model hypothesis for the division only; the pivot search compares exactly).  With it the bound of
+   solve_lu_backward_error reads in terms of U^ alone; how large U^ is compared with A is the growth factor: not estimated. *)
+From OV Require Import Proofs.RoundLUMult.
+
+Theorem lu_multipliers_bounded : forall (u : R), (0 <= u < 1)%R ->
+  forall (fadd fsub fmul fdiv : R -> R -> R),
+  (forall x y : R, y <> 0%R -> exists d : R, (Rabs d <= u)%R /\ fdiv x y = (x / y * (1 + d))%R) ->
+  forall (m lu perm : matrix (ARm fadd fsub fmul fdiv)) (piv : nat),
+  Proofs.Matrix.wf m -> lu_decomp m = Ok (lu, piv, perm) ->
+  (forall k, (k < rows m)%nat -> rentry fadd fsub fmul fdiv lu k k <> 0%R) ->
+  (forall i k, (k < i)%nat -> (i < rows m)%nat -> (Rabs (rentry fadd fsub fmul fdiv lu i k) <= 1 + u)%R) /\
+  (forall i c, (i < rows m)%nat -> (c < rows m)%nat ->
+     (Rsum (rows m) (fun k => Rabs (tril1 fadd fsub fmul fdiv lu i k) * Rabs (triu fadd fsub fmul fdiv lu k c))
+      <= (1 + u) * Rsum (rows m) (fun k => Rabs (triu fadd fsub fmul fdiv lu k c)))%R).
+Proof.
+  intros u Hu fadd fsub fmul fdiv Hd m lu perm piv W E Dg. split.
+  - exact (lu_multipliers_bounded_lemma u Hu fadd fsub fmul fdiv Hd m lu perm piv W E Dg).
+  - exact (lu_abs_product_bound_lemma u Hu fadd fsub fmul fdiv Hd m lu perm piv W E Dg).
+Qed.
+Check lu_multipliers_bounded : forall (u : R), (0 <= u < 1)%R ->
+  forall (fadd fsub fmul fdiv : R -> R -> R),
+  (forall x y : R, y <> 0%R -> exists d : R, (Rabs d <= u)%R /\ fdiv x y = (x / y * (1 + d))%R) ->
+  forall (m lu perm : matrix (ARm fadd fsub fmul fdiv)) (piv : nat),
+  Proofs.Matrix.wf m -> lu_decomp m = Ok (lu, piv, perm) ->
+  (forall k, (k < rows m)%nat -> rentry fadd fsub fmul fdiv lu k k <> 0%R) ->
+  (forall i k, (k < i)%nat -> (i < rows m)%nat -> (Rabs (rentry fadd fsub fmul fdiv lu i k) <= 1 + u)%R) /\
+  (forall i c, (i < rows m)%nat -> (c < rows m)%nat ->
+     (Rsum (rows m) (fun k => Rabs (tril1 fadd fsub fmul fdiv lu i k) * Rabs (triu fadd fsub fmul fdiv lu k c))
+      <= (1 + u) * Rsum (rows m) (fun k => Rabs (triu fadd fsub fmul fdiv lu k c)))%R).
+Print Assumptions lu_multipliers_bounded.
+Example lu_multipliers_bounded_nonvacuous :   (* the factors of [[2,1],[0,3]] in the rounding arithmetic; row 1 has a multiplier *)
+  (0 <= ux < 1)%R /\
+  (forall x y : R, y <> 0%R -> exists d : R, (Rabs d <= ux)%R /\ xdiv x y = (x / y * (1 + d))%R) /\
+  Proofs.Matrix.wf ex_m2 /\ lu_decomp ex_m2 = Ok (ex_lu2, 0%nat, ex_id2) /\
+  (forall k, (k < rows ex_m2)%nat -> rentry xadd xsub xmul xdiv ex_lu2 k k <> 0%R) /\ (0 < 1 < rows ex_m2)%nat.
+Proof.
+  split; [exact ux_range|]. split; [exact xdiv_ok|]. split; [reflexivity|]. split; [exact ex_lu_decomp|].
+  split; [exact ex_lu2_diag|cbn; lia].
+Qed.
